@@ -195,9 +195,20 @@ def run_case(case, ctx):
             hd[189] = np.broadcast_to(il[:, None], (nI, nX)).astype(np.int64)
             if how != 'il-headers-only':
                 hd[193] = np.broadcast_to(xl, (nI, nX)).astype(np.int64)
-        conv.convert_numpy(data, out, case['rate'], (4, 4, -1), ilines=None if how in ('headers', 'il-headers-only') and hd else il,
-                           xlines=None if how == 'headers' and hd else xl, samples=s_z, trace_headers=hd)
+        # ... as arrays of any integer dtype that holds the line numbers (narrow and unsigned ones included)
+        dmode = ['int64', 'narrow', 'unsigned'][int(case['id'].split(':')[1]) // 16 % 3]
+
+        def as_dtype(ax):
+            lo, hi = int(min(ax)), int(max(ax))
+            cands = {'int64': [np.int64], 'narrow': [np.int8, np.int16, np.int32, np.int64],
+                     'unsigned': ([np.uint8, np.uint16, np.uint32] if lo >= 0 else []) + [np.int8, np.int16, np.int32, np.int64]}[dmode]
+            dt_ = next(d_ for d_ in cands if np.iinfo(d_).min <= lo and hi <= np.iinfo(d_).max)
+            return np.asarray(ax).astype(dt_)
+        il_a, xl_a = as_dtype(il), as_dtype(xl)
+        conv.convert_numpy(data, out, case['rate'], (4, 4, -1), ilines=None if how in ('headers', 'il-headers-only') and hd else il_a,
+                           xlines=None if how == 'headers' and hd else xl_a, samples=s_z, trace_headers=hd)
         numpy_how = how if hd else 'args'
+        axis_dtypes = 'numpy-axis-dtype:%s:%s' % (il_a.dtype.kind, 'narrow' if il_a.dtype.itemsize < 8 else 'wide')
     with SgzReader(out) as r:
         compare('reader', r.ilines, r.xlines, r.zslices, r.tracecount, r.structured, s_il, s_xl, s_z, s_n, bad)
     with seismic_zfp.open(out) as f:
@@ -245,7 +256,7 @@ def run_case(case, ctx):
         return {'violations': bad, 'counters': {'sources': 1}, 'strata': ['route:zgy', 'zgy-dz:%s' % case['dz'], 'zgy-z0:%s' % case['z0'], 'zgy-follow:%s' % fol],
                 'key': 'zgy|%s|%s|%s|%s|%s|%s' % (case['ilk'], case['il'][1], case['xlk'], case['xl'][1], case['dz'], case['z0'])}
     if case['route'] == 'numpy':
-        extra_strata = ['numpy-axes:' + numpy_how]
+        extra_strata = ['numpy-axes:' + numpy_how, axis_dtypes]
     else:
         extra_strata = ['interval-hdr:%s' % interval_hdr]
     strata = extra_strata + ['route:' + case['route'], 'dt:%d' % case['dt'], 't0:%d' % case['t0'], 'ilstart:' + case['ilk'], 'xlstart:' + case['xlk'],
@@ -257,7 +268,7 @@ def run_case(case, ctx):
 def finalize(tier, cases, results, counters, strata):
     reasons = []
     need = ['dt:%d' % d for d in INTERVALS] + ['t0:%d' % t for t in T0S] + ['ilstep:%d' % s for s in STEPS] + \
-           ['ilstart:max', 'ilstart:min', 'xlstart:max', 'xlstart:min', 'ilstart:span', 'xlstart:span', 'route:segy', 'route:numpy', 'route:zgy', 'follow:crop', 'follow:reblock', 'follow:export', 'follow:window', 'interval-hdr:bin-zero', 'interval-hdr:bin-differs', 'interval-hdr:trace-zero', 'interval-hdr:trace-differs', 'numpy-axes:args', 'numpy-axes:headers', 'numpy-axes:both', 'numpy-axes:il-headers-only']
+           ['ilstart:max', 'ilstart:min', 'xlstart:max', 'xlstart:min', 'ilstart:span', 'xlstart:span', 'route:segy', 'route:numpy', 'route:zgy', 'follow:crop', 'follow:reblock', 'follow:export', 'follow:window', 'interval-hdr:bin-zero', 'interval-hdr:bin-differs', 'interval-hdr:trace-zero', 'interval-hdr:trace-differs', 'numpy-axes:args', 'numpy-axes:headers', 'numpy-axes:both', 'numpy-axes:il-headers-only', 'numpy-axis-dtype:u:narrow', 'numpy-axis-dtype:i:narrow', 'numpy-axis-dtype:i:wide']
     need += ['route:segy2d'] + ['2d-t0:%d' % t for t in T0S[:4]] + ['2d-how:' + h for h in ('nonumbers', 'single-inline', 'single-crossline')]
     need += ['zgy-dz:%s' % d for d in ZGY_DZ] + ['zgy-z0:%s' % z for z in ZGY_Z0[:3]]
     for s in need:
